@@ -744,7 +744,9 @@ pub fn assemble(rec: &Record, opts: &AsmOptions) -> Image {
     }
     img.rom_ranges.push((CODE_START, pc));
     for (f, a) in &func_start {
-        img.symbols.insert(f.clone(), *a as i64);
+        if img.symbols.insert(f.clone(), *a as i64).is_some() {
+            img.errors.push(format!("{}: symbol defined twice (a function and a variable or table)", f));
+        }
     }
     // ROM data bytes and pointers
     for (a, b) in &lay.rom_bytes {
